@@ -42,7 +42,9 @@ class; `update(G)` with a dict of user keys or with a sound model `G` of the own
 that form that the model mentions — in its terms, its `variables` or its `mapping` — is below the ancilla counter,
 so the names `_next_ancilla` hands out next occur nowhere in the model.  This covers the copy-like operations
 `round`, `subs`, `T(H)`, `H + c`, `c + H`, `H - c`, `c - H`, `H * c`, `-H`, `+H`, `H / c`, `H ** e`, `H + d`, `H * d`,
-`refresh`, `copy`, `set_mapping` and `update(model)`: the history goes on with their result.  No hypothesis on the
+`refresh`, `copy`, `set_mapping` and `update(model)`: the history goes on with their result — and the self-aliased
+in-place operations `H += H`, `H -= H`, `H *= H`, `H.update(H)` (and `H -= H.copy()`): none of them runs `clear()`
+unguarded, so constraints and counter survive `H -= H` although every term cancels.  No hypothesis on the
 constraint generator (`Qv.C03.pcbo_counter_and_labels`, `Qv.Book.consFresh_of_user`). -/
 theorem anc_history (κ : Kind) (ops : List Op) (huser : ∀ op ∈ ops, op.UserAt κ) :
     I4 (Book.run Fix.fixed κ ops) :=
@@ -61,6 +63,17 @@ def exHist : List Op :=
 
 example : exHist.all (fun op => decide (op.UserAt .pcbo)) = true := by decide +kernel
 example : (Book.run Fix.fixed .pcbo exHist).ancilla = 8 ∧ (Book.run Fix.fixed .pcbo exHist).constraints.length = 3 := by
+  decide +kernel
+
+/-- `H -= H` between two constraints: the second constraint gets fresh names (`__a2`, `__a3` after `__a0`, `__a1`),
+both constraints stay recorded; `H.update(H)` doubles the recorded lists and keeps the counter -/
+example : (Book.run Fix.fixed .pcbo [.cons .le [([0], 1), ([1], 1), ([2], 1), ([], -2)] 1 true none none, .isubSelf,
+      .cons .le [([3], 1), ([4], 1), ([5], 1), ([], -2)] 1 true none none]).ancilla = 4 ∧
+    (Book.run Fix.fixed .pcbo [.cons .le [([0], 1), ([1], 1), ([2], 1), ([], -2)] 1 true none none, .isubSelf,
+      .cons .le [([3], 1), ([4], 1), ([5], 1), ([], -2)] 1 true none none]).constraints.length = 2 ∧
+    (Book.run Fix.fixed .pcbo [.cons .le [([0], 1), ([1], 1), ([2], 1), ([], -2)] 1 true none none, .isubSelf]).terms = [] ∧
+    (Book.run Fix.fixed .pcbo [.cons .le [([0], 1), ([1], 1), ([2], 1), ([], -2)] 1 true none none, .updateSelf,
+      .iaddSelf, .imulSelf]).constraints.length = 2 := by
   decide +kernel
 
 /-- **T14.1 (full invariant).**  `Inv` holds after every history of user edits. -/
@@ -83,6 +96,8 @@ theorem anc_counter (s : State) (op : Op) : (step Fix.fixed s op).1.ancilla = an
 example (s : State) (q : Poly) : ancAfter Fix.fixed s (.imulD q) = s.ancilla := rfl
 example (s : State) (nd : Option Int) : ancAfter Fix.fixed s (.round nd) = s.ancilla := rfl
 example (s : State) (a : Arith) : ancAfter Fix.fixed s (.bin a) = s.ancilla := rfl
+example (s : State) : ancAfter Fix.fixed s .isubSelf = s.ancilla ∧ ancAfter Fix.fixed s .imulSelf = s.ancilla ∧
+    ancAfter Fix.fixed s .updateSelf = s.ancilla := ⟨rfl, rfl, rfl⟩
 example (s : State) : ancAfter Fix.fixed s .clear = 0 := rfl
 example (s : State) (r : Rel) (P : Poly) (lam : Rat) (lt : Bool) (lo hi : Option Rat) :
     ancAfter Fix.fixed s (.cons r P lam lt lo hi) =
@@ -129,6 +144,11 @@ theorem anc_counter_mono (s : State) (op : Op) (hu : op.UserAt s.kind) (hc : op 
   | bin a => exact Nat.le_refl _
   | rsubC c => exact Nat.le_refl _
   | remap => exact Nat.le_refl _
+  | iaddSelf => exact Nat.le_refl _
+  | isubSelf => exact Nat.le_refl _
+  | imulSelf => exact Nat.le_refl _
+  | updateSelf => exact Nat.le_refl _
+  | isubCopy => exact Nat.le_refl _
 
 example : (Book.run Fix.fixed .pcso
     [.cons .le [([0], 1), ([1], 1), ([2], 1), ([], -2)] 1 true none none, .ipow 2, .refresh, .copy, .round (some 0),
